@@ -614,6 +614,77 @@ struct einsum_helper<Ind0,Ind1,Ind2,Ind3,Ind4,Ind5,Tensor0,Tensor1,Tensor2,Tenso
 } // end of namespace Fastor
 
 
+#else // FASTOR_DONT_PERFORM_OP_MIN
+
+#include "tensor_meta.h"
+#include "einsum_meta.h"
+
+namespace Fastor {
+
+// einsum helper to extract the resulting index and the resulting tensor.
+// Without operation minimisation a network is evaluated in a single loop nest and the result carries the
+// free indices in order of first appearance over the index lists
+//------------------------------------------------------------------------------------------------------------//
+template<typename ...Ts>
+struct einsum_helper;
+
+template<class Ind0,
+         typename T, size_t ... Rest0>
+struct einsum_helper<Ind0,Tensor<T,Rest0...>> {
+    using _contraction_impl = contraction_impl<typename concat_<Ind0>::type, Tensor<T,Rest0...>,
+        typename std_ext::make_index_sequence<sizeof...(Rest0)>::type>;
+    using resulting_index  = typename _contraction_impl::indices;
+    using resulting_tensor = typename _contraction_impl::type;
+};
+
+template<class Ind0, class Ind1,
+         typename T, size_t ... Rest0, size_t ... Rest1>
+struct einsum_helper<Ind0,Ind1,Tensor<T,Rest0...>,Tensor<T,Rest1...>> {
+    using _contraction_impl = contraction_impl<typename concat_<Ind0,Ind1>::type, Tensor<T,Rest0...,Rest1...>,
+        typename std_ext::make_index_sequence<sizeof...(Rest0)+sizeof...(Rest1)>::type>;
+    using resulting_index  = typename _contraction_impl::indices;
+    using resulting_tensor = typename _contraction_impl::type;
+};
+
+template<class Ind0, class Ind1, class Ind2,
+         typename T, size_t ... Rest0, size_t ... Rest1, size_t ... Rest2>
+struct einsum_helper<Ind0,Ind1,Ind2,Tensor<T,Rest0...>,Tensor<T,Rest1...>,Tensor<T,Rest2...>> {
+    using _contraction_impl = contraction_impl<typename concat_<Ind0,Ind1,Ind2>::type, Tensor<T,Rest0...,Rest1...,Rest2...>,
+        typename std_ext::make_index_sequence<sizeof...(Rest0)+sizeof...(Rest1)+sizeof...(Rest2)>::type>;
+    using resulting_index  = typename _contraction_impl::indices;
+    using resulting_tensor = typename _contraction_impl::type;
+};
+
+template<class Ind0, class Ind1, class Ind2, class Ind3,
+         typename T, size_t ... Rest0, size_t ... Rest1, size_t ... Rest2, size_t ... Rest3>
+struct einsum_helper<Ind0,Ind1,Ind2,Ind3,Tensor<T,Rest0...>,Tensor<T,Rest1...>,Tensor<T,Rest2...>,Tensor<T,Rest3...>> {
+    using _contraction_impl = contraction_impl<typename concat_<Ind0,Ind1,Ind2,Ind3>::type, Tensor<T,Rest0...,Rest1...,Rest2...,Rest3...>,
+        typename std_ext::make_index_sequence<sizeof...(Rest0)+sizeof...(Rest1)+sizeof...(Rest2)+sizeof...(Rest3)>::type>;
+    using resulting_index  = typename _contraction_impl::indices;
+    using resulting_tensor = typename _contraction_impl::type;
+};
+
+template<class Ind0, class Ind1, class Ind2, class Ind3, class Ind4,
+         typename T, size_t ... Rest0, size_t ... Rest1, size_t ... Rest2, size_t ... Rest3, size_t ... Rest4>
+struct einsum_helper<Ind0,Ind1,Ind2,Ind3,Ind4,Tensor<T,Rest0...>,Tensor<T,Rest1...>,Tensor<T,Rest2...>,Tensor<T,Rest3...>,Tensor<T,Rest4...>> {
+    using _contraction_impl = contraction_impl<typename concat_<Ind0,Ind1,Ind2,Ind3,Ind4>::type, Tensor<T,Rest0...,Rest1...,Rest2...,Rest3...,Rest4...>,
+        typename std_ext::make_index_sequence<sizeof...(Rest0)+sizeof...(Rest1)+sizeof...(Rest2)+sizeof...(Rest3)+sizeof...(Rest4)>::type>;
+    using resulting_index  = typename _contraction_impl::indices;
+    using resulting_tensor = typename _contraction_impl::type;
+};
+
+template<class Ind0, class Ind1, class Ind2, class Ind3, class Ind4, class Ind5,
+         typename T, size_t ... Rest0, size_t ... Rest1, size_t ... Rest2, size_t ... Rest3, size_t ... Rest4, size_t ... Rest5>
+struct einsum_helper<Ind0,Ind1,Ind2,Ind3,Ind4,Ind5,Tensor<T,Rest0...>,Tensor<T,Rest1...>,Tensor<T,Rest2...>,Tensor<T,Rest3...>,Tensor<T,Rest4...>,Tensor<T,Rest5...>> {
+    using _contraction_impl = contraction_impl<typename concat_<Ind0,Ind1,Ind2,Ind3,Ind4,Ind5>::type, Tensor<T,Rest0...,Rest1...,Rest2...,Rest3...,Rest4...,Rest5...>,
+        typename std_ext::make_index_sequence<sizeof...(Rest0)+sizeof...(Rest1)+sizeof...(Rest2)+sizeof...(Rest3)+sizeof...(Rest4)+sizeof...(Rest5)>::type>;
+    using resulting_index  = typename _contraction_impl::indices;
+    using resulting_tensor = typename _contraction_impl::type;
+};
+//------------------------------------------------------------------------------------------------------------//
+
+} // end of namespace Fastor
+
 #endif // FASTOR_DONT_PERFORM_OP_MIN
 
 
